@@ -4,10 +4,14 @@ NOTES["C18"] = dict(
     text=("Lean theorems, unbounded in sizes/ranks/PPN: block deal is contiguous, ordered, tiles [0,n); owner search returns the unique "
           "owner on every monotone first_cols from any start rank; the default constructor's first_cols is monotone and the lookup returns "
           "a rank whose own block contains the column (end to end, also rows < ranks); rank<->(node,index) maps mutually inverse and in range "
-          "for orderings 0,1,2. The model is tied to the C++ by exhaustive correspondence on the property's own finite domain."),
+          "for orderings 0,1,2. Two ties to the C++, both re-checked on every run: (1) tools/cxx2lean.py translates the bodies of "
+          "Topology::get_node/get_local_proc/get_global_proc and of the three Partition constructors from clang's AST of /repo's current "
+          "headers into Generated/*.lean, with a companion `_defined` function per body (no division by zero on the executed path); "
+          "Props/C18Bridge.lean proves generated = model, definedness for every size including 0, and the property's map/tiling claims on "
+          "the generated code; (2) exhaustive correspondence on the property's own finite domain, including an unoptimised (-O0) build."),
     note=("Trusted: Lean kernel (no axioms beyond propext/Classical.choice/Quot.sound, audited each run), the hand-written model of "
           "partition.hpp/topology.hpp validated against the real classes on every run, int overflow outside the model, MPI_Allgather as a parameter."),
-    technique="Lean 4 proof (induction + omega) on an executable model; exhaustive model/implementation correspondence",
+    technique="Lean 4 proof (induction + omega) on an executable model; model regenerated from the C++ AST by a translator with bridging lemmas; exhaustive model/implementation correspondence",
 )
 
 NOTES["C07"] = dict(
